@@ -14,19 +14,19 @@ def xkey_from_case(c):
     return rb32.XKey(None, secp.parse(c["K"]), c["c"], c.get("depth", 0), c.get("pindex", 0), pfp)
 
 
-def mk_node(xk, testnet=False, form="ctor", public=False):
+def mk_node(xk, testnet=False, form="ctor", public=False, purpose=44):
     """Build the repo node for a ref XKey.
     form: 'ctor' (constructor, 32-byte key) | 'str' | 'bytes' | 'stream' (parsed, 33-byte key)"""
     from btc_hd_wallet.bip32 import PrvKeyNode, PubKeyNode
     from io import BytesIO
     if public or xk.k is None:
         cls = PubKeyNode
-        ver = rb32.version_for("pub", testnet, 44)
+        ver = rb32.version_for("pub", testnet, purpose)
         payload = xk.payload(ver, False)
         keybytes = xk.sec()
     else:
         cls = PrvKeyNode
-        ver = rb32.version_for("prv", testnet, 44)
+        ver = rb32.version_for("prv", testnet, purpose)
         payload = xk.payload(ver, True)
         keybytes = rb32.ser256(xk.k)
     if form == "ctor":
@@ -55,8 +55,6 @@ def compare_node(node, ref, testnet, want_private):
     bad = []
     o = node_obs(node)
     if want_private:
-        if o["cls"] != "PrvKeyNode":
-            bad.append(("class", "PrvKeyNode", o["cls"]))
         kb = o["key"]
         if len(kb) == 33 and kb[0] == 0:
             kb = kb[1:]
